@@ -103,25 +103,30 @@ def prove_valid(name, hyps, goal, witness=None, nsamples=None, replay=None, time
         if goal is True or goal is sp.true:
             return Obl(name, 'discharged', 'sympy-assumptions', time.time() - t0, goal=goal_text or 'True')
         ok, model = smt.valid(hyps, goal, timeout_ms)
+        abstracted = smt.LAST['abstracted']
         if ok:
             return Obl(name, 'discharged', 'z3', time.time() - t0, goal=goal_text or short(goal, 200))
         syms = set()
         for h in list(hyps) + [goal]:
             if isinstance(h, sp.Basic): syms |= h.free_symbols
-        pts = alg.sample_points(syms, hyps, nsamples, seed=SEED, witness=None, ranges=ranges)
-        if model: pts = [model] + pts
-        for pt in pts:
+        # counterexample search over the reals: admissible points where the goal is false (exact / 30-digit evaluation)
+        pts = alg.sample_points(syms, list(hyps) + [sp.Not(goal)], 1, seed=SEED, witness=None, ranges=ranges, tries=40 * nsamples)
+        if pts:
+            pt = pts[0]
+            return Obl(name, 'refuted', 'exact-evaluation', time.time() - t0, goal=goal_text or short(goal, 200), cex=jval(pt), replay=replay,
+                       cex_raw={str(k): str(v) for k, v in pt.items()})
+        if model is not None and not abstracted:
+            full = {s_: model.get(s_, sp.Integer(0)) for s_ in syms}
             try:
-                if any(s not in pt for s in syms): continue
-                hv = all(alg.eval_cond(h, pt) for h in hyps)
-                if not hv: continue
-                gv = alg.eval_cond(goal, pt)
-                if not gv:
-                    return Obl(name, 'refuted', 'z3-model' if pt is model else 'exact-evaluation', time.time() - t0,
-                               goal=goal_text or short(goal, 200), cex=jval(pt), replay=replay, cex_raw={str(k): str(v) for k, v in pt.items()})
+                genuine = all(alg.eval_cond(h, full) for h in hyps) and not alg.eval_cond(goal, full)
             except Exception:
-                continue
-        return Obl(name, 'open', 'z3', time.time() - t0, goal=goal_text or short(goal, 200), detail='unknown/timeout and no counterexample in %d points' % len(pts))
+                genuine = False
+            if genuine:
+                return Obl(name, 'refuted', 'z3-model', time.time() - t0, goal=goal_text or short(goal, 200), cex=jval(full), replay=replay,
+                           cex_raw={str(k): str(v) for k, v in full.items()})
+        return Obl(name, 'open', 'z3', time.time() - t0, goal=goal_text or short(goal, 200),
+                   detail=('z3 model is not confirmed over the reals (abstracted transcendental atoms / algebraic model)' if model is not None else 'unknown/timeout') +
+                   ' and no counterexample in %d sampled points' % (40 * nsamples))
     except Unsupported as u:
         return Obl(name, 'open', 'extraction', time.time() - t0, detail='extraction: ' + str(u))
     except Exception:
